@@ -80,6 +80,10 @@ CprClauses(r) ==
            <<"weights=first-row-of-inverse-diagonal-block",
                  r.variant = "cpr" => \A ip \in 1..np : wts[ip].ok /\ \A j \in 1..n :
                      C0!REq(Fpp[ip][j], IF (j - 1) \div B = ip - 1 /\ j <= C0!Nact(K, r.act) THEN wts[ip].x[((j - 1) % B) + 1] ELSE C0!RZero)>>,
+           <<"drs-weights=definition",
+                 r.variant = "drs" => \A ip \in 1..np : \A j \in 1..n :
+                     C0!REq(Fpp[ip][j], IF (j - 1) \div B = ip - 1 /\ j <= C0!Nact(K, r.act)
+                                        THEN C0!R(C0!DrsWeight(K, B, r.act, ip - 1, (j - 1) % B, r.dd64, r.ps64)) ELSE C0!RZero)>>,
            <<"scatter", C0!MEq(Sc, C0!ScatterDense(K, B, r.act))>>,
            <<"App=Fpp*A*Scatter", r.App.n = np /\ r.App.m = np /\ C0!WellFormed(r.App) /\ C0!MEq(App, C0!MM(Fpp, C0!MM(KD, Sc, np), np))>>,
            <<"two-stage-formula", /\ C0!VEq(RVi(r.rp[1]), C0!MV(Fpp, C0!VSubR(f, C0!MV(KD, s))))
@@ -103,6 +107,11 @@ DeflMtClauses(r) == << <<"deflated-setup-runs", r.exc = "">>,
                        <<"residual-orthogonal-to-deflation-vectors(threads)", r.exc = "" => r.orth12 <= Tol>>,
                        <<"projection-independent-of-thread-count", r.exc = "" => r.dx12 <= Tol>> >>
 
+\* one solver object, asked to solve with another matrix than the one it was built for (1e-6, tol 1e-10)
+ReuseClauses(r) == << <<"solve-runs", r.exc = "">>,
+                      <<"solves-the-matrix-passed-to-operator()", r.exc = "" => r.rel12 <= 1000000>>,
+                      <<"solves-own-matrix", r.exc = "" => r.own12 <= 1000000>> >>
+
 Clauses(r) ==
     CASE r.k = "schur"   -> SchurClauses(r)
       [] r.k = "schurO"  -> SchurOClauses(r)
@@ -113,6 +122,7 @@ Clauses(r) ==
       [] r.k = "cprO"    -> CprOClauses(r)
       [] r.k = "defl"    -> DeflClauses(r)
       [] r.k = "deflmt"  -> DeflMtClauses(r)
+      [] r.k = "reuse"   -> ReuseClauses(r)
       [] OTHER           -> << <<"unknown-record", FALSE>> >>
 Failed(r) == IF Has(r, "e") THEN (IF r.e = "End" THEN <<>> ELSE <<"recorder:" \o r.e>>)
              ELSE FailedOf(Clauses(r))
